@@ -14,37 +14,47 @@ import (
 
 // ---- tree text format (shared with modelrun): s(hex) e(hex) i(hex) b(hex) n a[t,t,...]  N = nil element / nil array
 func treeOf(m *proto.Message) string {
+	var sb strings.Builder
+	writeTree(&sb, m)
+	return sb.String()
+}
+
+// writeTree prints the value into one builder (linear in the size of the value, also for deep nesting)
+func writeTree(sb *strings.Builder, m *proto.Message) {
 	if m == nil {
-		return "N"
+		sb.WriteString("N")
+		return
 	}
 	b, _ := m.Bytes()
 	switch m.Type {
 	case proto.StringMessage:
-		return "s(" + hx(b) + ")"
+		sb.WriteString("s(" + hx(b) + ")")
 	case proto.ErrorMessage:
-		return "e(" + hx(b) + ")"
+		sb.WriteString("e(" + hx(b) + ")")
 	case proto.IntegerMessage:
-		return "i(" + hx(b) + ")"
+		sb.WriteString("i(" + hx(b) + ")")
 	case proto.BulkMessage:
 		if b == nil {
-			return "n"
+			sb.WriteString("n")
+			return
 		}
-		return "b(" + hx(b) + ")"
+		sb.WriteString("b(" + hx(b) + ")")
 	case proto.ArrayMessage:
 		arr, err := m.Array()
 		if err != nil || arr == nil {
-			return "a[N]"
+			sb.WriteString("a[N]")
+			return
 		}
-		// iterate without disturbing the cursor semantics: Size + fresh walk through NextMessages is cursor based,
-		// so serialize through RESPBytes-independent walk: use a copy via ReverseBy(1) twice? simpler: read all.
-		parts := []string{}
+		sb.WriteString("a[")
 		rest, _ := arr.NextMessages()
-		for _, e := range rest {
-			parts = append(parts, treeOf(e))
+		for i, e := range rest {
+			if i > 0 {
+				sb.WriteString(",")
+			}
+			writeTree(sb, e)
 		}
-		return "a[" + strings.Join(parts, ",") + "]"
+		sb.WriteString("]")
 	}
-	return fmt.Sprintf("?(%d)", int(m.Type))
 }
 
 // parseTree builds a message through the public API from the tree text.
